@@ -108,6 +108,9 @@ type c03Model struct {
 	skip     bool
 	trailer  string // value of trailer field X-T ("" = none)
 	close    bool   // Connection: close set by hand
+	// underBodyless: the current body stream was installed while the status was 204/304 (only used to name the
+	// violation class of programs that later switch to a body-carrying status)
+	underBodyless bool
 }
 
 // set follows the documented header semantics (see C29): Set replaces the first value stored under the name and
@@ -134,6 +137,7 @@ func (m *c03Model) cookie(k, v string) {
 
 func (m *c03Model) stream(c *c03Case, declared int) {
 	m.kind, m.body, m.yield, m.declared = 1, nil, c.L, declared
+	m.underBodyless = m.status == 204 || m.status == 304
 }
 
 type c03Op struct {
@@ -381,6 +385,13 @@ func c03Oracle(c *c03Case, run *c03Run, res *c03Result) {
 			return
 		}
 		m := c03Interpret(progs[k], c)
+		if m.kind != 0 && m.underBodyless && m.status != 204 && m.status != 304 {
+			// one shape, one class: whatever goes wrong with this response is filed under the shape
+			plain := add
+			add = func(sym, format string, a ...any) {
+				plain("stream-installed-under-bodyless-status-misframed", "[%s] "+format, append([]any{sym}, a...)...)
+			}
+		}
 		head := methods[k] == "HEAD"
 		sendBody := !(head || m.skip || m.status == 204 || m.status == 304)
 		res.nobody = res.nobody || !sendBody
